@@ -258,6 +258,7 @@ pub fn check_case(c: &Case, cx: &mut Cx) -> Res {
     cx.class_if(seen.len > 16, "len>16");
     cx.class_if(seen.len > 32, "len>32");
     cx.class_if(seen.keys > 16, "distinct-keys>16");
+    cx.class_if(seen.keys > 32, "distinct-keys>32");
     {
         // a dedup() node whose input enumerates more than 16 entries (model side)
         let mut wide_dedup = false;
